@@ -1148,7 +1148,7 @@ def evaluate__xml_to_json(self: XPathFunction, context: ta.ContextType = None) \
                 continue
 
             if child.tag == NULL_TAG:
-                check_attributes()
+                check_attributes('key', 'escaped-key')
                 if child.text is not None:
                     msg = 'a null element cannot have a text value'
                     raise self.error('FOJS0006', msg)
@@ -1261,7 +1261,7 @@ def evaluate__json_to_xml(self: XPathFunction, context: ta.ContextType = None) \
         raise self.missing_context()
 
     def _fallback(*a: Any, **kw: Any) -> str:
-        return '&#xFFFD;'
+        return '\uFFFD'
 
     liberal = False
     validate = False
